@@ -11,7 +11,6 @@ package main
 // evaluates the property directly on the returned objects (monitors).
 
 import (
-	"context"
 	"encoding/json"
 	"fmt"
 	"reflect"
@@ -26,7 +25,6 @@ import (
 	xpv1 "github.com/crossplane/crossplane-runtime/apis/common/v1"
 
 	v1 "github.com/crossplane/crossplane/apis/apiextensions/v1"
-	xrdwebhook "github.com/crossplane/crossplane/internal/validation/apiextensions/v1/xrd"
 	"github.com/crossplane/crossplane/internal/xcrd"
 )
 
@@ -81,16 +79,26 @@ type c11XrdS struct {
 }
 
 type c11Server struct {
+	// the CRDs that exist (stored and cached) when the UPDATE request arrives; ignored when WorldU is given
 	ExistsXR    bool `json:"existsXR"`
 	ExistsClaim bool `json:"existsClaim"`
-	RejectXR    bool `json:"rejectXR"`
-	RejectClaim bool `json:"rejectClaim"`
+	// the API server's validation of a CRD: refuses cluster-scoped / namespaced CRDs, and any CRD
+	// whose spec schema (in any version) declares the property RejectProp
+	RejectXR    bool   `json:"rejectXR"`
+	RejectClaim bool   `json:"rejectClaim"`
+	RejectProp  string `json:"rejectProp"`
+	// the world of the create / update request (c11_world.go); filled in by c11FillScn when absent
+	WorldC *c11World `json:"worldC"`
+	WorldU *c11World `json:"worldU"`
 }
 
 type c11Scn struct {
 	Xrd    c11XrdS   `json:"xrd"`
 	Old    *c11XrdS  `json:"old"`
 	Server c11Server `json:"server"`
+	// further requests handled afterwards by the SAME process: the same long-lived webhook
+	// validator and the same package-level derivation functions (their own `more` is ignored)
+	More []c11Scn `json:"more"`
 }
 
 // ---------------------------------------------------------------- observation
@@ -103,10 +111,14 @@ type c11CrdObs struct {
 type c11Obs struct {
 	XR          c11CrdObs `json:"xr"`
 	Claim       c11CrdObs `json:"claim"`
+	XRRepeat    bool      `json:"xrRepeat"` // deriving the composite CRD again from the same XRD object gives the same CRD
 	Validate    []string  `json:"validate"`
 	Update      []string  `json:"update"` // null when the scenario has no old XRD
 	AdmitCreate string    `json:"admitCreate"`
+	CallsCreate []string  `json:"callsCreate"`
 	AdmitUpdate string    `json:"admitUpdate"` // "" when the scenario has no old XRD
+	CallsUpdate []string  `json:"callsUpdate"`
+	More        []c11Obs  `json:"more"`
 }
 
 // ---------------------------------------------------------------- building the real XRD
@@ -369,7 +381,10 @@ func c11Contains(xs []string, x string) bool {
 	return false
 }
 
-func c11MonitorCrd(x c11XrdS, which string, crd *extv1.CustomResourceDefinition) []Mon {
+// c11MonitorCrd evaluates the clauses of the property on one derived CRD. specOnly: the object is
+// what the webhook submitted to the API server (on an update: the stored CRD's metadata with the
+// derived spec), so only the clauses about spec are evaluated.
+func c11MonitorCrd(x c11XrdS, which string, crd *extv1.CustomResourceDefinition, specOnly bool) []Mon {
 	var mons []Mon
 	add := func(sig, why string) { mons = append(mons, Mon{Sig: "C11:" + sig, Why: which + ": " + why}) }
 	wantScope, wantNames, wantCat := extv1.ClusterScoped, x.Names, xcrd.CategoryComposite
@@ -404,7 +419,9 @@ func c11MonitorCrd(x c11XrdS, which string, crd *extv1.CustomResourceDefinition)
 		}
 	}
 	ors := crd.GetOwnerReferences()
-	if len(ors) != 1 || ors[0].Controller == nil || !*ors[0].Controller || string(ors[0].UID) != x.UID || ors[0].Name != x.Name ||
+	if specOnly {
+		// not a clause about spec
+	} else if len(ors) != 1 || ors[0].Controller == nil || !*ors[0].Controller || string(ors[0].UID) != x.UID || ors[0].Name != x.Name ||
 		ors[0].Kind != v1.CompositeResourceDefinitionKind || ors[0].APIVersion != v1.SchemeGroupVersion.String() {
 		add("controller-ref", "owner references are not exactly one controller reference to the XRD")
 	}
@@ -445,6 +462,27 @@ func c11MonitorCrd(x c11XrdS, which string, crd *extv1.CustomResourceDefinition)
 		if root.Type != "object" || spec.Type != "object" || status.Type != "object" {
 			add("machinery-shadowed", "root/spec/status are not of type object")
 		}
+		// the envelope (apiVersion, kind, metadata; `spec` required) is machinery too: the author's
+		// top-level schema must not alter it
+		base := xcrd.BaseProps()
+		for k, got := range root.Properties {
+			want, ok := base.Properties[k]
+			switch {
+			case !ok:
+				add("envelope-altered", "top-level property "+k+" of version "+xv.Name+" is not one of apiVersion/kind/metadata/spec/status")
+			case k == "apiVersion" || k == "kind":
+				if !reflect.DeepEqual(got, want) {
+					add("envelope-altered", "top-level property "+k+" of version "+xv.Name+" is not the standard schema")
+				}
+			case k == "metadata":
+				if got.Type != want.Type || len(got.Properties) != 1 {
+					add("envelope-altered", "metadata of version "+xv.Name+" is not an object declaring just `name`")
+				}
+			}
+		}
+		if !reflect.DeepEqual(root.Required, base.Required) {
+			add("envelope-altered", fmt.Sprintf("top-level required list of version %s is %v", xv.Name, root.Required))
+		}
 		// machinery present and standard, whatever the author wrote
 		for _, k := range required {
 			if _, ok := spec.Properties[k]; !ok {
@@ -484,6 +522,25 @@ func c11MonitorCrd(x c11XrdS, which string, crd *extv1.CustomResourceDefinition)
 			if got, ok := status.Properties[k]; !ok || !reflect.DeepEqual(got, want) {
 				add("author-property-lost", "status."+k+" of version "+xv.Name+" not carried")
 			}
+		}
+		// ... and nothing else: a property that neither this version's author schema nor the
+		// machinery declares has leaked in from another version, CRD or XRD
+		for k := range spec.Properties {
+			_, isMach := table[k]
+			if _, isAuthor := aspec.Properties[k]; !isMach && !isAuthor {
+				add("foreign-property", "spec."+k+" of version "+xv.Name+" is declared neither by this version of the XRD nor by the machinery")
+			}
+		}
+		for k := range status.Properties {
+			_, isMach := stable[k]
+			if _, isAuthor := astatus.Properties[k]; !isMach && !isAuthor {
+				add("foreign-property", "status."+k+" of version "+xv.Name+" is declared neither by this version of the XRD nor by the machinery")
+			}
+		}
+		if len(spec.Required) != len(aspec.Required) || len(status.Required) != len(astatus.Required) ||
+			len(spec.XValidations) != len(aspec.XValidations) || len(status.XValidations) != len(astatus.XValidations) ||
+			len(spec.OneOf) != len(aspec.OneOf) || len(status.OneOf) != len(astatus.OneOf) {
+			add("foreign-rule", "version "+xv.Name+" carries required entries, validation rules or oneOf alternatives its author did not write")
 		}
 		for _, r := range aspec.Required {
 			if !c11Contains(spec.Required, r) {
@@ -578,89 +635,70 @@ func c11Scheme() *runtime.Scheme {
 	return s
 }
 
-// c11Admit runs the real validator. existing CRDs are seeded; the dry-run write
-// addressed to a rejected CRD fails. Returns the canonical decision and monitors.
-func c11Admit(s c11Scn, update bool) (string, []Mon) {
-	var mons []Mon
-	st := NewStore(c11Scheme())
-	seed := func(name string, scope extv1.ResourceScope) {
-		crd := &extv1.CustomResourceDefinition{ObjectMeta: metav1.ObjectMeta{Name: name},
-			Spec: extv1.CustomResourceDefinitionSpec{Group: s.Xrd.Group, Scope: scope,
-				Names: extv1.CustomResourceDefinitionNames{Kind: "Seeded", Plural: "seeded"}}}
-		crd.SetGroupVersionKind(extv1.SchemeGroupVersion.WithKind("CustomResourceDefinition"))
-		st.Seed(crd)
+func c11Derive(x c11XrdS, which string) (*extv1.CustomResourceDefinition, error) {
+	if which == "claim" {
+		return xcrd.ForCompositeResourceClaim(c11Build(x))
 	}
-	xrName := s.Xrd.Name
-	claimName := ""
-	if s.Xrd.ClaimNames != nil {
-		claimName = s.Xrd.ClaimNames.Plural + "." + s.Xrd.Group
+	return xcrd.ForCompositeResource(c11Build(x))
+}
+
+// c11FillScn computes the derived parts of a scenario (also on corpus replay): the parse
+// results of the schemas and the worlds of the two admission requests.
+func c11FillScn(s *c11Scn, nested bool) {
+	c11Fill(&s.Xrd)
+	c11Fill(s.Old)
+	if s.Server.WorldC == nil {
+		s.Server.WorldC = &c11World{}
 	}
-	// ValidateCreate dry-run-creates, so a CRD that exists is a rejection by the
-	// server; existing CRDs are therefore only seeded for updates.
-	if update {
-		if s.Server.ExistsXR && xrName != "" {
-			seed(xrName, extv1.ClusterScoped)
+	if s.Server.WorldU == nil {
+		w := &c11World{}
+		if s.Server.ExistsXR && s.Xrd.Name != "" {
+			w.Exists = append(w.Exists, s.Xrd.Name)
 		}
-		if s.Server.ExistsClaim && claimName != "" && claimName != xrName {
-			seed(claimName, extv1.NamespaceScoped)
+		if cn := c11ClaimCRDName(s.Xrd); s.Server.ExistsClaim && cn != "" && cn != s.Xrd.Name {
+			w.Exists = append(w.Exists, cn)
 		}
+		s.Server.WorldU = w
 	}
-	writes := 0
-	rejected := ""
-	st.Plan = func(c CallInfo) Outcome {
-		if !c.IsWrite() {
-			return OK
+	for _, w := range []*c11World{s.Server.WorldC, s.Server.WorldU} {
+		if w.Exists == nil {
+			w.Exists = []string{}
 		}
-		which := "xr"
-		if writes > 0 {
-			which = "claim"
-		}
-		writes++
-		if (which == "xr" && s.Server.RejectXR) || (which == "claim" && s.Server.RejectClaim) {
-			rejected = which
-			return Fail
-		}
-		return OK
-	}
-	val := xrdwebhook.VerifNewValidator(st)
-	n := c11Build(s.Xrd)
-	var err error
-	p := Guard(func() {
-		if update {
-			_, err = val.ValidateUpdate(context.Background(), c11Build(*s.Old), n)
-		} else {
-			_, err = val.ValidateCreate(context.Background(), n)
-		}
-	})
-	if p != "" {
-		return "panic", []Mon{{Sig: "C11:panic", Why: "webhook validator: " + p}}
-	}
-	for _, c := range st.Log {
-		if c.IsWrite() && !c.DryRun {
-			mons = append(mons, Mon{Sig: "C11:webhook-persisted", Why: "the validating webhook issued a non-dry-run " + c.Verb + " of " + c.Name})
+		if w.Acts == nil {
+			w.Acts = []c11Act{}
 		}
 	}
-	switch {
-	case err == nil:
-		return "allowed", mons
-	case rejected != "":
-		return "rejected:" + rejected, mons
-	case strings.Contains(err.Error(), "cannot get CRD for Composite Resource"):
-		return "crdError:xr:" + c11ErrClass(err), mons
-	case strings.Contains(err.Error(), "cannot get Claim CRD for Composite Claim"):
-		return "crdError:claim:" + c11ErrClass(err), mons
+	if nested || s.More == nil {
+		s.More = []c11Scn{}
 	}
-	return "invalid", mons
+	for i := range s.More {
+		c11FillScn(&s.More[i], true)
+	}
 }
 
 // ---------------------------------------------------------------- one scenario
 
+// c11Run handles the scenario's request and then its `more` requests in one "process": one
+// long-lived webhook validator over one client, and the package-level derivation functions.
 func c11Run(s c11Scn) (c11Obs, []Mon) {
+	h := c11NewHook()
+	obs, mons := c11RunStep(h, s)
+	for i, m := range s.More {
+		o, ms := c11RunStep(h, m)
+		obs.More = append(obs.More, o)
+		for _, x := range ms {
+			mons = append(mons, Mon{Sig: x.Sig, Why: fmt.Sprintf("request %d of the sequence: %s", i+2, x.Why)})
+		}
+	}
+	return obs, mons
+}
+
+func c11RunStep(h *c11Hook, s c11Scn) (c11Obs, []Mon) {
 	var mons []Mon
-	obs := c11Obs{Validate: []string{}}
+	obs := c11Obs{Validate: []string{}, CallsCreate: []string{}, CallsUpdate: []string{}, More: []c11Obs{}}
 	xrd := c11Build(s.Xrd)
-	var xr, claim *extv1.CustomResourceDefinition
-	var xrErr, claimErr error
+	var xr, claim, xr2 *extv1.CustomResourceDefinition
+	var xrErr, claimErr, xr2Err error
 	if p := Guard(func() { xr, xrErr = xcrd.ForCompositeResource(xrd) }); p != "" {
 		mons = append(mons, Mon{Sig: "C11:panic", Why: "ForCompositeResource: " + p})
 	}
@@ -681,16 +719,26 @@ func c11Run(s c11Scn) (c11Obs, []Mon) {
 		_ = json.Unmarshal([]byte(xrSnap), &fresh)
 		obs.XR.Crd = fresh
 		// monitors look at a CRD derived from a fresh XRD object
-		if c, err := xcrd.ForCompositeResource(c11Build(s.Xrd)); err == nil {
-			mons = append(mons, c11MonitorCrd(s.Xrd, "xr", c)...)
+		if c, err := c11Derive(s.Xrd, "xr"); err == nil {
+			mons = append(mons, c11MonitorCrd(s.Xrd, "xr", c, false)...)
 		}
 	}
 	obs.Claim = c11CrdObs{Err: c11ErrClass(claimErr)}
 	if claimErr == nil && claim != nil {
 		obs.Claim.Crd = c11Project(claim)
-		mons = append(mons, c11MonitorCrd(s.Xrd, "claim", claim)...)
+		mons = append(mons, c11MonitorCrd(s.Xrd, "claim", claim, false)...)
 		if c11ClaimCollision(s.Xrd) {
 			mons = append(mons, Mon{Sig: "C11:claim-name-collision-accepted", Why: "claim names collide with the composite's names and a claim CRD was derived"})
+		}
+	}
+	// the same (long-lived) XRD object once more: what a caller that keeps the object gets the second time
+	if p := Guard(func() { xr2, xr2Err = xcrd.ForCompositeResource(xrd) }); p != "" {
+		mons = append(mons, Mon{Sig: "C11:panic", Why: "ForCompositeResource (again): " + p})
+	}
+	obs.XRRepeat = c11ErrClass(xr2Err) == c11ErrClass(xrErr) && (xrErr != nil || mustJSON(c11Project(xr2)) == xrSnap)
+	if xr2Err == nil && xr2 != nil {
+		for _, m := range c11MonitorCrd(s.Xrd, "xr", xr2, false) {
+			mons = append(mons, Mon{Sig: m.Sig, Why: "second derivation from the same XRD object: " + m.Why})
 		}
 	}
 
@@ -724,26 +772,13 @@ func c11Run(s c11Scn) (c11Obs, []Mon) {
 		}
 	}
 
-	// the webhook
+	// the webhook (long-lived validator h)
 	var m []Mon
-	obs.AdmitCreate, m = c11Admit(s, false)
+	obs.AdmitCreate, obs.CallsCreate, m = h.admit(s.Xrd, nil, s.Server, *s.Server.WorldC)
 	mons = append(mons, m...)
 	if s.Old != nil {
-		obs.AdmitUpdate, m = c11Admit(s, true)
+		obs.AdmitUpdate, obs.CallsUpdate, m = h.admit(s.Xrd, s.Old, s.Server, *s.Server.WorldU)
 		mons = append(mons, m...)
-		if obs.AdmitUpdate == "allowed" && c11ImmutableChanged(s.Xrd, *s.Old) {
-			mons = append(mons, Mon{Sig: "C11:webhook-allowed-immutable-change", Why: "the webhook allowed an update that changes group, kind or plural"})
-		}
-	}
-	// every derived CRD must have passed the API server's dry run before the webhook allows
-	serverWouldReject := func() bool {
-		return s.Server.RejectXR || (s.Server.RejectClaim && s.Xrd.ClaimNames != nil)
-	}
-	if serverWouldReject() && (obs.AdmitCreate == "allowed" || obs.AdmitUpdate == "allowed") {
-		mons = append(mons, Mon{Sig: "C11:webhook-allowed-rejected-crd", Why: "the webhook allowed an XRD although the API server refuses the dry run of one of its CRDs"})
-	}
-	if obs.AdmitCreate == "allowed" && s.Xrd.ClaimNames != nil && c11ClaimCollision(s.Xrd) {
-		mons = append(mons, Mon{Sig: "C11:webhook-allowed-claim-collision", Why: "the webhook allowed an XRD whose claim names collide with the composite's"})
 	}
 	return obs, mons
 }
@@ -799,6 +834,37 @@ func c11Class(s c11Scn, o c11Obs) string {
 	if s.Xrd.DefCUP != nil || s.Xrd.DefCDP != nil || (string(s.Xrd.Conversion) != "null" && len(s.Xrd.Conversion) > 0) {
 		tags = append(tags, "opts")
 	}
+	// seq = further requests handled by the same process; race = a third party writes a CRD while the
+	// webhook handles the request; lag = the informer cache is (re)synchronised late; apierr = an API
+	// call fails with an injected error class
+	if len(s.More) > 0 {
+		tags = append(tags, "seq")
+	}
+	race, lag, apierr := false, false, false
+	for _, w := range []*c11World{s.Server.WorldC, s.Server.WorldU} {
+		if w == nil {
+			continue
+		}
+		for _, a := range w.Acts {
+			switch a.Do {
+			case "bump", "delete", "create":
+				race = true
+			case "sync":
+				lag = true
+			case "err":
+				apierr = true
+			}
+		}
+	}
+	if race {
+		tags = append(tags, "race")
+	}
+	if lag {
+		tags = append(tags, "lag")
+	}
+	if apierr {
+		tags = append(tags, "apierr")
+	}
 	claim := "noclaim"
 	if s.Xrd.ClaimNames != nil {
 		claim = "claim"
@@ -825,8 +891,7 @@ func init() {
 		for _, raw := range c.Corpus {
 			var s c11Scn
 			if err := jsonUnmarshalStrict(raw, &s); err == nil {
-				c11Fill(&s.Xrd)
-				c11Fill(s.Old)
+				c11FillScn(&s, false)
 				obs, mons := c11Run(s)
 				c.Emit(s, obs, mons, "corpus/"+c11Class(s, obs))
 			}
@@ -834,16 +899,14 @@ func init() {
 		// the deterministic sweep runs once (in the shard that also replays the corpus, or when run by hand)
 		if c.N > 0 && (len(c.Corpus) > 0 || c.Seed%1000 == 0) {
 			for _, s := range c11Sweep() {
-				c11Fill(&s.Xrd)
-				c11Fill(s.Old)
+				c11FillScn(&s, false)
 				obs, mons := c11Run(s)
 				c.Emit(s, obs, mons, "sweep/"+c11Class(s, obs))
 			}
 		}
 		for i := 0; i < c.N; i++ {
 			s := c11Gen(c.Rng.Fork(), c.Tier)
-			c11Fill(&s.Xrd)
-			c11Fill(s.Old)
+			c11FillScn(&s, false)
 			obs, mons := c11Run(s)
 			c.Emit(s, obs, mons, c11Class(s, obs))
 		}
